@@ -25,6 +25,7 @@ type liaPrinter struct {
 	ranges []string
 	ok     bool
 	n      int
+	quant  bool // keep quantifiers (bound variables as integers)
 }
 
 // isWide: bit-vector sorts that are translated to Int (64 bits and more); narrower ones stay bit-vectors.
@@ -50,8 +51,8 @@ func liaSort(s Sort) string {
 func pow2(w int) string { return new(big.Int).Lsh(big.NewInt(1), uint(w)).String() }
 
 func (p *liaPrinter) name(t *Term, sort string, body string) string {
-	if len(body) < 60 {
-		return body
+	if len(body) < 60 || (t != nil && t.open) {
+		return body // terms with bound variables cannot be hoisted into top-level definitions
 	}
 	p.n++
 	n := fmt.Sprintf("i%d", p.n)
@@ -73,7 +74,7 @@ func (p *liaPrinter) uf(op string, t *Term, args []string) string {
 	r := "(" + fn + " " + strings.Join(args, " ") + ")"
 	if isWide(t.Sort) {
 		r = p.name(t, "Int", r)
-		p.ranges = append(p.ranges, fmt.Sprintf("(and (<= 0 %s) (< %s %s))", r, r, pow2(w)))
+		p.addRange(t, r, w)
 	}
 	return r
 }
@@ -159,15 +160,43 @@ func (p *liaPrinter) tr1(t *Term) string {
 		n := symName(t.Name)
 		p.consts[n] = liaSort(t.Sort)
 		if isWide(t.Sort) {
-			p.ranges = append(p.ranges, fmt.Sprintf("(and (<= 0 %s) (< %s %s))", n, n, pow2(w)))
+			p.addRange(t, n, w)
 		}
 		return n
 	case "var":
-		p.ok = false
+		if !p.quant {
+			p.ok = false
+		}
 		return symName(t.Name)
 	case "forall":
-		p.ok = false
-		return "true"
+		if !p.quant {
+			p.ok = false
+			return "true"
+		}
+		// bound bit-vector variables become integers restricted to the bit-vector's range
+		var decl, guards []string
+		for _, b := range t.Bnd {
+			n := symName(b.Name)
+			decl = append(decl, "("+n+" "+liaSort(b.Sort)+")")
+			if isWide(b.Sort) {
+				guards = append(guards, fmt.Sprintf("(<= 0 %s)", n), fmt.Sprintf("(< %s %s)", n, pow2(b.Sort.Width())))
+			}
+		}
+		body := p.tr(t.Args[0])
+		if len(guards) > 0 {
+			body = "(=> (and " + strings.Join(guards, " ") + ") " + body + ")"
+		}
+		pats := ""
+		for _, pt := range t.Pat {
+			ps := p.tr(pt)
+			if !strings.Contains(ps, "ite ") && !strings.Contains(ps, "(mod ") && !strings.Contains(ps, "(div ") {
+				pats += " :pattern (" + ps + ")"
+			}
+		}
+		if pats != "" {
+			body = "(! " + body + pats + ")"
+		}
+		return "(forall (" + strings.Join(decl, " ") + ") " + body + ")"
 	case "not", "and", "or", "=>", "distinct":
 		return p.name(t, "Bool", "("+t.Op+" "+strings.Join(args(), " ")+")")
 	case "=":
@@ -256,7 +285,7 @@ func (p *liaPrinter) tr1(t *Term) string {
 		a := args()
 		r := p.name(t, liaSort(t.Sort), "(select "+a[0]+" "+a[1]+")")
 		if isWide(t.Sort) {
-			p.ranges = append(p.ranges, fmt.Sprintf("(and (<= 0 %s) (< %s %s))", r, r, pow2(w)))
+			p.addRange(t, r, w)
 		}
 		return r
 	case "store":
@@ -281,7 +310,7 @@ func (p *liaPrinter) tr1(t *Term) string {
 		}
 		if isWide(t.Sort) {
 			r = p.name(t, "Int", r)
-			p.ranges = append(p.ranges, fmt.Sprintf("(and (<= 0 %s) (< %s %s))", r, r, pow2(w)))
+			p.addRange(t, r, w)
 		}
 		return r
 	case "app":
@@ -302,7 +331,7 @@ func (p *liaPrinter) tr1(t *Term) string {
 		r := "(" + fn + " " + strings.Join(args(), " ") + ")"
 		if isWide(t.Sort) {
 			r = p.name(t, "Int", r)
-			p.ranges = append(p.ranges, fmt.Sprintf("(and (<= 0 %s) (< %s %s))", r, r, pow2(w)))
+			p.addRange(t, r, w)
 		}
 		return r
 	case "(_ is lit)":
@@ -314,7 +343,11 @@ func (p *liaPrinter) tr1(t *Term) string {
 
 // LIAScript renders the (quantifier-free) assertions as an integer-arithmetic script.
 func (tb *TB) LIAScript(asserts []*Term) (string, bool) {
-	p := &liaPrinter{tb: tb, memo: map[*Term]string{}, consts: map[string]string{}, ufs: map[string]string{}, ok: true}
+	return tb.liaScript(asserts, false)
+}
+
+func (tb *TB) liaScript(asserts []*Term, quant bool) (string, bool) {
+	p := &liaPrinter{tb: tb, memo: map[*Term]string{}, consts: map[string]string{}, ufs: map[string]string{}, ok: true, quant: quant}
 	var body []string
 	for _, a := range asserts {
 		s := p.tr(a)
@@ -368,4 +401,16 @@ func (tb *TB) LIAScript(asserts []*Term) (string, bool) {
 	}
 	sb.WriteString("(check-sat)\n")
 	return sb.String(), true
+}
+
+func (p *liaPrinter) addRange(t *Term, r string, w int) {
+	if t != nil && t.open {
+		return // dropping an assumption about an open term is sound
+	}
+	p.ranges = append(p.ranges, fmt.Sprintf("(and (<= 0 %s) (< %s %s))", r, r, pow2(w)))
+}
+
+// LIAScriptQ: as LIAScript, but quantified assumptions are kept (bound variables over Int).
+func (tb *TB) LIAScriptQ(asserts []*Term) (string, bool) {
+	return tb.liaScript(asserts, true)
 }
